@@ -249,11 +249,18 @@ pub fn replay(g: &Gen, c: &Config, dir: &Path, content: &HashMap<Byte32, Complet
         match step {
             Step::Block { id, .. } => {
                 let b = g.block_by_id(*id);
-                o.verdict = match node.process(&b) {
-                    Ok(true) => "accepted:true",
-                    Ok(false) => "accepted:false",
-                    Err(_) => "rejected",
+                o.verdict = match node.process_timed(&b) {
+                    Some(Ok(true)) => "accepted:true",
+                    Some(Ok(false)) => "accepted:false",
+                    Some(Err(_)) => "rejected",
+                    None => "no answer within 40 s (a service thread panicked?)",
                 };
+                if o.verdict.starts_with("no answer") {
+                    run.obs.push(o);
+                    run.direct.push(format!("the node stopped answering at step {si} (delivery of block {id})"));
+                    node.abandon();
+                    return run;
+                }
             }
             Step::Restart => {
                 node.stop();
